@@ -1657,7 +1657,22 @@ func (pe *PEngine) clausesOf(fn *ssa.Function) []clause {
 			continue
 		}
 		if !isErrOnly(p.Blocks[len(p.Blocks)-1]) {
-			success = append(success, p)
+			// a named condition tested twice with different outcomes: not an execution
+			taken := map[ssa.Value]bool{}
+			feasible := true
+			for _, pcnd := range p.Conds {
+				if pcnd.At == nil {
+					continue
+				}
+				t := takenTruth(p, pcnd.At)
+				if prev, ok := taken[pcnd.At.Cond]; ok && prev != t {
+					feasible = false
+				}
+				taken[pcnd.At.Cond] = t
+			}
+			if feasible {
+				success = append(success, p)
+			}
 		}
 	}
 	var out []clause
@@ -1686,9 +1701,14 @@ func (pe *PEngine) clausesOf(fn *ssa.Function) []clause {
 			}
 		}
 	}
+	// a literal: branch outcome (iff, truth), or - for the computed edge of a named boolean - the value
+	// itself having the truth value, as seen at the branch phiIf that tests the merged boolean ph
 	type lit struct {
 		iff   *ssa.If
+		cond  ssa.Value
 		truth bool
+		ph    *ssa.Phi
+		phiIf *ssa.If
 	}
 	chain := func(x *ssa.BasicBlock) []lit {
 		var ls []lit
@@ -1696,11 +1716,80 @@ func (pe *PEngine) clausesOf(fn *ssa.Function) []clause {
 			if len(x.Preds) == 1 {
 				pr := x.Preds[0]
 				if iff, ok := pr.Instrs[len(pr.Instrs)-1].(*ssa.If); ok && pr.Succs[0] != pr.Succs[1] {
-					ls = append(ls, lit{iff, pr.Succs[0] == x})
+					ls = append(ls, lit{iff: iff, cond: iff.Cond, truth: pr.Succs[0] == x})
 				}
 			}
 		}
 		return ls
+	}
+	// expand: a literal on a named boolean (a merge of && / || outcomes) is replaced by the alternatives of
+	// primitive outcomes that give it that truth value
+	var expand func(l lit, depth int) [][]lit
+	expand = func(l lit, depth int) [][]lit {
+		ph, ok := l.cond.(*ssa.Phi)
+		if !ok || depth > 3 || !isBoolType(ph.Type()) || isLoopHeader(ph.Block()) {
+			return [][]lit{{l}}
+		}
+		base := map[*ssa.If]bool{}
+		for _, bl := range chain(ph.Block()) {
+			base[bl.iff] = true
+		}
+		useIf := l.iff
+		if useIf == nil {
+			useIf = l.phiIf
+		}
+		var alts [][]lit
+		for i, p := range ph.Block().Preds {
+			var pathLits []lit
+			for _, pl := range chain(p) {
+				if !base[pl.iff] {
+					pathLits = append(pathLits, pl)
+				}
+			}
+			// the branch at the end of p that leads into the merge
+			if iff, ok := p.Instrs[len(p.Instrs)-1].(*ssa.If); ok && p.Succs[0] != p.Succs[1] {
+				pathLits = append(pathLits, lit{iff: iff, cond: iff.Cond, truth: p.Succs[0] == ph.Block()})
+			}
+			ev := ph.Edges[i]
+			if k, isK := ev.(*ssa.Const); isK && k.Value != nil && k.Value.Kind() == constant.Bool {
+				if constant.BoolVal(k.Value) != l.truth {
+					continue
+				}
+				alts = append(alts, pathLits)
+				continue
+			}
+			for _, sub := range expand(lit{cond: ev, truth: l.truth, ph: ph, phiIf: useIf}, depth+1) {
+				alts = append(alts, append(append([]lit{}, pathLits...), sub...))
+			}
+		}
+		// the path literals may themselves test named booleans
+		var out [][]lit
+		for _, a := range alts {
+			sets := [][]lit{nil}
+			for _, x := range a {
+				var next [][]lit
+				var xs [][]lit
+				if _, isPhi := x.cond.(*ssa.Phi); isPhi && x.iff != nil {
+					xs = expand(x, depth+1)
+				} else {
+					xs = [][]lit{{x}}
+				}
+				for _, s0 := range sets {
+					for _, e := range xs {
+						next = append(next, append(append([]lit{}, s0...), e...))
+					}
+				}
+				sets = next
+				if len(sets) > 32 {
+					return [][]lit{{l}}
+				}
+			}
+			out = append(out, sets...)
+		}
+		if len(out) == 0 || len(out) > 32 {
+			return [][]lit{{l}}
+		}
+		return out
 	}
 	for _, b := range fn.Blocks {
 		if !region[b] {
@@ -1715,38 +1804,94 @@ func (pe *PEngine) clausesOf(fn *ssa.Function) []clause {
 			}
 			ls := chain(pr)
 			if iff, ok := pr.Instrs[len(pr.Instrs)-1].(*ssa.If); ok && pr.Succs[0] != pr.Succs[1] {
-				ls = append(ls, lit{iff, pr.Succs[0] == b})
+				ls = append(ls, lit{iff: iff, cond: iff.Cond, truth: pr.Succs[0] == b})
 			}
-			litSets = append(litSets, ls)
+			litSets = append(litSets, ls) // as written (a named boolean stays one literal) ...
+			// ... and with named booleans taken apart into the outcomes that decide them
+			sets := [][]lit{nil}
+			for _, x := range ls {
+				var next [][]lit
+				for _, s0 := range sets {
+					for _, e := range expand(x, 0) {
+						next = append(next, append(append([]lit{}, s0...), e...))
+					}
+				}
+				sets = next
+				if len(sets) > 32 {
+					sets = [][]lit{ls}
+					break
+				}
+			}
+			if !(len(sets) == 1 && len(sets[0]) == len(ls)) {
+				litSets = append(litSets, sets...)
+			}
 		}
 		for _, lits := range litSets {
-			if len(lits) == 0 || len(lits) > 4 {
+			// the same outcome may appear twice after expansion
+			seenLit := map[string]bool{}
+			var uniq []lit
+			for _, l := range lits {
+				k := fmt.Sprintf("%p/%v", l.cond, l.truth) // (two branches on one named value are one literal)
+				if !seenLit[k] {
+					seenLit[k] = true
+					uniq = append(uniq, l)
+				}
+			}
+			lits = uniq
+			taut := false
+			for _, l := range lits {
+				if seenLit[fmt.Sprintf("%p/%v", l.cond, !l.truth)] {
+					taut = true // contradictory conjunction: its negation says nothing
+				}
+			}
+			if taut || len(lits) == 0 || len(lits) > 5 {
 				continue
 			}
 			okAll := true
 			for _, sp := range success {
 				contradicts := false
-				for _, pcnd := range sp.Conds {
-					for _, l := range lits {
-						if pcnd.At == l.iff {
-							taken := takenTruth(sp, pcnd.At)
-							if taken != l.truth {
+				for _, l := range lits {
+					if l.iff != nil {
+						for _, pcnd := range sp.Conds {
+							if pcnd.At == l.iff && takenTruth(sp, pcnd.At) != l.truth {
 								contradicts = true
 							}
 						}
+						// a branch on a constant-resolved named boolean leaves no condition on the path: the
+						// blocks tell which way it went
+						if !contradicts && onPathBlock(sp, l.iff.Block()) && takenTruth(sp, l.iff) != l.truth {
+							contradicts = true
+						}
+						continue
+					}
+					// computed edge of a named boolean: the success path merged this very value and then
+					// branched the other way at the test of the boolean
+					if l.ph != nil && l.phiIf != nil && sp.Env.Val(l.ph) == l.cond && onPathBlock(sp, l.phiIf.Block()) && takenTruth(sp, l.phiIf) != l.truth {
+						contradicts = true
 					}
 				}
 				if !contradicts {
 					okAll = false
+					if os.Getenv("VERIF_DEBUG") == "clauses" {
+						fmt.Fprintln(os.Stderr, "  NOT CONTRADICTED BY", shorten(sp.CondString(), 900))
+					}
 					break
 				}
+			}
+			if os.Getenv("VERIF_DEBUG") == "clauses" {
+				env := newTermEnv()
+				d := ""
+				for _, l := range lits {
+					d += fmt.Sprintf(" [%v %s iff=%v]", l.truth, atomName(env.Term(l.cond)), l.iff != nil)
+				}
+				fmt.Fprintln(os.Stderr, "LITSET", funcName(fn), okAll, d)
 			}
 			if !okAll {
 				continue
 			}
 			var cl clause
 			for _, l := range lits {
-				cl = append(cl, condAt{l.iff.Cond, !l.truth})
+				cl = append(cl, condAt{l.cond, !l.truth})
 			}
 			out = append(out, cl)
 		}
@@ -1756,6 +1901,15 @@ func (pe *PEngine) clausesOf(fn *ssa.Function) []clause {
 }
 
 // takenTruth: which successor of iff did the path take (true = Succs[0])?
+func onPathBlock(p *DPath, b *ssa.BasicBlock) bool {
+	for _, x := range p.Blocks {
+		if x == b {
+			return true
+		}
+	}
+	return false
+}
+
 func takenTruth(p *DPath, iff *ssa.If) bool {
 	b := iff.Block()
 	for i, x := range p.Blocks {
